@@ -22,6 +22,7 @@ type stlNeedsDoc struct {
 func stlNeedsDocs(r *rng) []stlNeedsDoc {
 	x, _ := hex.DecodeString(stlExampleX)
 	y, _ := hex.DecodeString(stlExampleY)
+	z, _ := hex.DecodeString(stlExampleZ)
 	raw := func(dsc byte, text []byte, cct string) []byte {
 		f := &stlFile{FPS: 25, DSC: dsc, CPN: "850", LC: "09", Lang: "english", MNC: 40, MNR: 23, TCS: '1', TND: 1, DSN: 1, CO: "GBR", TNB: 1, TNS: 1}
 		f.Blocks = []stlCue{{In: stlTC{0, 0, 1, 0}, Out: stlTC{0, 0, 2, 0}, VP: 20, JC: 2, Raw: text}}
@@ -36,6 +37,9 @@ func stlNeedsDocs(r *rng) []stlNeedsDoc {
 			{Start: 3599233333334, End: 3600000000000, VP: 0, JC: 0, Rows: [][]stlRun{{run("Ok", false, false, false)}}}}},
 		{name: "worked_instance_teletext", data: y, want: []stlCueView{
 			{Start: 1000000000, End: 2480000000, VP: 22, JC: 1, Rows: [][]stlRun{{run("Hi", false, false, false), run("é", true, false, false), run("!", false, false, false)}, {run("Ok", false, false, false)}}}}},
+		// rows without start box (the writer's form), one with: z_denotes
+		{name: "worked_instance_teletext_no_start_box", data: z, want: []stlCueView{
+			{Start: 1000000000, End: 2480000000, VP: 22, JC: 1, Rows: [][]stlRun{{run("Hi", true, false, false), run("é", false, false, false)}, {run("Ok", false, false, false)}, {run("!", false, false, false)}}}}},
 		// a floating diacritic left at the end of a row lands on the first character of the next row
 		{name: "needs_pair_open", data: raw('0', []byte{'a', 0xc2, 0x8a, 'e'}, "00"), want: []stlCueView{
 			{Start: 1e9, End: 2e9, VP: 20, JC: 2, Rows: [][]stlRun{{run("a", false, false, false)}, {run("é", false, false, false)}}}}},
